@@ -113,12 +113,30 @@ pub fn check_substitution_of(
     // choose up to 3 disjoint closed sub-formulae
     let cands = closed_candidates(f);
     let mut chosen: Vec<(F, String)> = vec![];
+    // The label of a replacement is any name over [A-Za-z0-9_] (the tokenizer's `collect_name`);
+    // the naming scheme is a function of the generated case: `w_<i>`, bare numbers, the spellings
+    // of the Boolean constants, or names that look like operators / internal variable names.
+    let scheme = if parts.is_empty() {
+        selectors.iter().fold(0u64, |a, s| a.wrapping_mul(31).wrapping_add(*s)) % 4
+    } else {
+        (parts.len() as u64) % 4
+    };
+    let format_label = |i: usize| -> String {
+        const CONSTANTS: [&str; 6] = ["1", "0", "true", "False", "True", "false"];
+        const OPERATORS: [&str; 12] = ["EX", "AG", "V", "x", "in", "xx", "E", "3", "A", "U", "bind", "W"];
+        match scheme {
+            1 => format!("{i}"),
+            2 if i < CONSTANTS.len() => CONSTANTS[i].to_string(),
+            3 if i < OPERATORS.len() => OPERATORS[i].to_string(),
+            _ => format!("w_{i}"),
+        }
+    };
     for (i, part) in parts.iter().enumerate() {
         let overlaps = chosen
             .iter()
             .any(|(s, _)| s.subformulas().contains(&part) || part.subformulas().contains(&s));
         if cands.contains(part) && !overlaps {
-            chosen.push((part.clone(), format!("w_{i}")));
+            chosen.push((part.clone(), format_label(i)));
         }
     }
     for (i, sel) in selectors.iter().enumerate() {
@@ -131,7 +149,7 @@ pub fn check_substitution_of(
             .iter()
             .any(|(s, _)| s.subformulas().contains(&c) || c.subformulas().contains(&s));
         if !overlaps {
-            chosen.push((c.clone(), format!("w_{i}")));
+            chosen.push((c.clone(), format_label(i)));
         }
     }
     if chosen.is_empty() {
@@ -177,8 +195,9 @@ pub fn check_substitution_of(
             case,
         ));
     }
+    classes.push(format!("label-scheme={}", ["w_i", "numbers", "constant-spellings", "operator-like"][scheme as usize]));
     classes.push(format!("replacements={}", if chosen.len() >= 8 { ">=8".to_string() } else { chosen.len().to_string() }));
-    let occurrences = replaced.count(&|g| matches!(g, F::Wild(w) if w.starts_with("w_")));
+    let occurrences = replaced.count(&|g| matches!(g, F::Wild(w) if chosen.iter().any(|(_, l)| l == w)));
     if occurrences > chosen.len() {
         classes.push("same-wild-card-several-times".into());
     }
